@@ -115,6 +115,15 @@ def layout_objects_compare_all_fields(repo: Repo, res: CheckResult) -> None:
                         if st.target.id not in fields:
                             fields.append(st.target.id)
             n += 1
+            # a field declared with field(compare=False) is left out of the generated __eq__ all the same
+            for c in repo.mro(ci):
+                for st in c.node.body:
+                    if isinstance(st, ast.AnnAssign) and isinstance(st.value, ast.Call) and any(
+                            k.arg == "compare" and isinstance(k.value, ast.Constant) and k.value.value is False for k in st.value.keywords):
+                        res.add(Finding("C03", "LAYOUT.eq-omits-field", m.rel, f"{ci.name}.{norm(st.target)}", f"{norm(st.target)}: compare=False",
+                                        f"{c.name}.{norm(st.target)} is excluded from comparison (compare=False): layouts of {ci.name} that differ "
+                                        "only there are equal cache keys, the program generated for the first is returned for the second",
+                                        st.lineno))
             eq = ci.methods.get("__eq__")
             res.evaluated(f"layout-eq:{ci.name}", eq is not None)
             if eq is None:
